@@ -24,7 +24,9 @@ RULE = ("win: every strategy name (aliases included) x size (all of 0..24 quick 
         "names, observation = both dictionaries as name -> object identity plus .periodic/.symm of every object; "
         "non-trivial = an alias or a non-distinct strategy; hist: histories inside one process (call twice, mutate a "
         "returned list in place and call again, run overlap_add.list(..., wnd=sd[name], normalize=True) with hop "
-        "size/4 or size/2 before or between calls), every call result observed at once together with object identity; "
+        "size/4 or size/2 before or between calls; 2-7 consecutive calls of one strategy with one size that differ only in "
+        "alpha and in how it is passed: default / positional / keyword / explicit value equal to the default / int, "
+        "float, bool and dyadic Fraction values that compare equal; alias and size interleavings), every call result observed at once together with object identity; "
         "non-trivial = contains a mutation or an overlap-add and every call returned a list; encl (extra): samples, symmetry and overlap-add sums "
         "enclosed against the real closed forms by the interval tactic")
 EXHAUSTIVE = {"quick": False, "thorough": False}
@@ -77,9 +79,16 @@ def rows():
 
 
 def alpha_value(a):
+  """["int", k] | ["float", hex] | ["frac", num, den] (dyadic only: then Fraction and float arithmetic agree) | ["bool", b]"""
   if a is None:
     return None
-  return int(a[1]) if a[0] == "int" else float.fromhex(a[1])
+  if a[0] == "int":
+    return int(a[1])
+  if a[0] == "frac":
+    return Fraction(a[1], a[2])
+  if a[0] == "bool":
+    return bool(a[1])
+  return float.fromhex(a[1])
 
 
 def enc_sample(v):
@@ -133,14 +142,14 @@ class recording(object):
     return False
 
 
-def call_recorded(sd, name, size, alpha, coslog, sinlog, raw=None):
+def call_recorded(sd, name, size, alpha, coslog, sinlog, raw=None, kw=False):
   try:
     fn = sd[name]
   except Exception as e:
     return {"raise": type(e).__name__}
   try:
     with recording(fn, coslog, sinlog):
-      out = fn(size) if alpha is None else fn(size, alpha)
+      out = fn(size) if alpha is None else (fn(size, alpha=alpha) if kw else fn(size, alpha))
     if raw is not None:
       raw.append(out)
     if not isinstance(out, list):
@@ -223,8 +232,10 @@ def res_lit(r):
 def alpha_lit(a):
   if a is None:
     return "None"
-  if a[0] == "int":
-    return "(Some (PInt %s))" % L.z(a[1])
+  if a[0] in ("int", "bool"):
+    return "(Some (PInt %s))" % L.z(int(a[1]))
+  if a[0] == "frac":     # dyadic: the model computes with the equal float
+    return "(Some (PFlt %s))" % flit(float(Fraction(a[1], a[2])).hex())
   return "(Some (PFlt %s))" % flit(a[1])
 
 
@@ -375,6 +386,8 @@ def nontrivial_dict(c, o):
 #   ["mutate", k]                                    overwrite in place the list returned by the k-th call
 #   ["ola", "window"|"wsymm", name, size, div]       overlap_add.list(blocks, hop=size//div, wnd=sd[name], normalize=True)
 def gen_hist(tier, rng):
+  for c in gen_hist_params(tier, rng):
+    yield c
   rs = rows()
   sizes = (8, 12) if tier == "quick" else (4, 8, 12, 16, 20, 32)
   for names, has_alpha in rs:
@@ -405,6 +418,72 @@ def gen_hist(tier, rng):
                "tags": ["ola-wsymm", "name=" + p, "div=%d" % div]}
 
 
+# alpha values for the parameter histories: per alpha strategy, [default-equal, others...]; dyadic Fractions / bools
+# only where Fraction or bool arithmetic gives the same binary64 as the float model
+HIST_ALPHAS = {
+  "blackman": {"default": ["float", (0.16).hex()],
+               "other": [["float", (0.3).hex()], ["float", (0.05).hex()], ["int", 0], ["float", (0.25).hex()]],
+               "equal": [["float", (0.25).hex()], ["frac", 1, 4]],
+               "equal2": [["int", 0], ["bool", 0], ["float", (0.0).hex()], ["float", (-0.0).hex()], ["frac", 0, 1]]},
+  "cos": {"default": ["int", 1],
+          "other": [["int", 2], ["float", (0.5).hex()], ["int", 3], ["float", (1.5).hex()]],
+          "equal": [["int", 1], ["float", (1.0).hex()], ["bool", 1], ["frac", 1, 1]],
+          "equal2": [["int", 2], ["float", (2.0).hex()], ["frac", 2, 1]]},
+}
+
+
+def gen_hist_params(tier, rng):
+  """Histories of 2-5 calls of ONE strategy with ONE size that differ only in alpha and in how it is passed
+  (positional / keyword / default / explicit value equal to the default / int, float, bool, Fraction that compare
+  equal), in both dictionaries; and primary / alias interleavings."""
+  rs = rows()
+  sizes = (3, 16) if tier == "quick" else (1, 2, 3, 8, 16, 33)
+  for names, has_alpha in rs:
+    p = names[0]
+    if has_alpha:
+      h = HIST_ALPHAS.get(p)
+      if h is None:
+        h = {"default": None, "other": [["int", 1], ["int", 2], ["float", (0.5).hex()]], "equal": [["int", 1], ["float", (1.0).hex()]],
+             "equal2": [["int", 2], ["float", (2.0).hex()]]}
+      d, o = h["default"], h["other"]
+      for size in sizes:
+        for sd, sz in (("window", size), ("wsymm", size + 1)):
+          c = lambda a, mode="pos": ["call", sd, p, sz, a, mode]
+          hs = [
+            ("default-then-kw", [c(None), c(o[0], "kw"), c(o[1], "kw"), c(None)]),
+            ("kw-kw-kw", [c(o[0], "kw"), c(o[1], "kw"), c(o[0], "kw"), c(o[2], "kw")]),
+            ("pos-then-kw", [c(o[0]), c(o[1], "kw"), c(o[0], "kw"), c(o[1])]),
+            ("kw-then-pos", [c(o[1], "kw"), c(o[0]), c(None), c(o[2])]),
+            ("equal-types", [c(a, m) for a in h["equal"] for m in ("pos", "kw")][:6] + [c(o[3], "kw")]),
+            ("equal-types2", [c(a, "kw") for a in h["equal2"]] + [c(o[0], "kw")] + [c(a) for a in h["equal2"][:2]]),
+          ]
+          if d is not None:
+            hs.append(("explicit-default", [c(o[0], "kw"), c(d, "kw"), c(None), c(d), c(o[0])]))
+          for tag, steps in hs:
+            yield {"steps": steps, "tags": ["params", tag, "name=" + p, sd]}
+        # both dictionaries in one history: the prefix relation with alpha given by keyword after other alphas
+        yield {"steps": [["call", "window", p, size, None, "pos"], ["call", "wsymm", p, size + 1, None, "pos"],
+                         ["call", "window", p, size, o[0], "kw"], ["call", "wsymm", p, size + 1, o[0], "kw"],
+                         ["call", "wsymm", p, size + 1, o[1], "kw"], ["call", "window", p, size, o[1], "kw"]],
+               "tags": ["params", "prefix-kw", "name=" + p]}
+        yield {"steps": [["call", "window", p, size, None, "pos"], ["call", "window", p, size, o[0], "kw"],
+                         ["call", "wsymm", p, size + 1, o[0], "kw"]], "tags": ["params", "prefix-kw-one-side", "name=" + p]}
+        yield {"steps": [["call", "wsymm", p, size + 1, o[1], "kw"], ["call", "wsymm", p, size + 1, o[0], "kw"],
+                         ["call", "window", p, size, o[0], "kw"]], "tags": ["params", "prefix-kw-one-side", "name=" + p]}
+    if len(names) > 1:
+      for size in sizes:
+        steps = []
+        for nm in names + names[::-1]:
+          steps.append(["call", "window", nm, size, None, "pos"])
+          steps.append(["call", "wsymm", nm, size + 1, None, "pos"])
+        yield {"steps": steps[:8], "tags": ["aliases-interleaved", "name=" + p]}
+    # same strategy, shorter then longer then shorter again
+    yield {"steps": [["call", "window", p, 4, None, "pos"], ["call", "window", p, 9, None, "pos"],
+                     ["call", "window", p, 4, None, "pos"], ["call", "wsymm", p, 5, None, "pos"],
+                     ["call", "wsymm", p, 10, None, "pos"], ["call", "wsymm", p, 4, None, "pos"]],
+           "tags": ["sizes-interleaved", "name=" + p]}
+
+
 def run_hist(c):
   import audiolazy
   from audiolazy import Stream, overlap_add, inf
@@ -414,14 +493,15 @@ def run_hist(c):
   powlog = []
   for st in c["steps"]:
     if st[0] == "call":
-      _, sd, name, size, a = st
+      sd, name, size, a = st[1:5]
       raw = []
-      r = call_recorded(dicts[sd], name, size, alpha_value(a), coslog, sinlog, raw)
+      r = call_recorded(dicts[sd], name, size, alpha_value(a), coslog, sinlog, raw, kw=(len(st) > 5 and st[5] == "kw"))
       obj = raw[0] if raw else None
       r["aliased"] = obj is not None and any(obj is x for x in raws)
       raws.append(obj)
       outs.append(r)
-      powlog += pow_table(name, alpha_value(a), coslog, sinlog)
+      av = alpha_value(a)
+      powlog += pow_table(name, None if av is None else (float(av) if not isinstance(av, bool) else int(av)), coslog, sinlog)
     elif st[0] == "mutate":
       obj = raws[st[1]] if st[1] < len(raws) else None
       try:
@@ -465,7 +545,8 @@ def lit_hist(c, o):
 
 
 def nontrivial_hist(c, o):
-  return any(st[0] != "call" for st in c["steps"]) and all("list" in r for r in o.get("outs", []) if "other" not in r)
+  varied = any(st[0] != "call" for st in c["steps"]) or len(set(json.dumps(st[4:]) for st in c["steps"])) > 1
+  return varied and all("list" in r for r in o.get("outs", []) if "other" not in r)
 
 
 IMPORTS = ("From Coq Require Import Floats.PrimFloat.\n"
@@ -516,7 +597,7 @@ def encl_cases(tier, rng):
           for n in range(size):
             combos.append((p, symm, size, a, n))
   if tier == "quick":
-    combos = rng.sample(combos, min(400, len(combos)))
+    combos = rng.sample(combos, min(250, len(combos)))
     combos.sort(key=lambda c: (c[0], c[1], c[2], str(c[3]), c[4]))
   return combos
 
@@ -535,17 +616,20 @@ def extra(chk, tier, rng):
   goals = []      # (case dict, coq text)
   t0 = time.time()
   skipped = 0
-  for p, symm, size, a, n in encl_cases(tier, rng):
+  def fresh_samples():
+    for p, symm, size, a, n in encl_cases(tier, rng):
+      sd = audiolazy.wsymm if symm else audiolazy.window
+      key = (p, symm, size, json.dumps(a))
+      if key not in cache:
+        try:
+          cache[key] = sd[p](size) if a is None else sd[p](size, alpha_value(a))
+        except Exception as e:
+          cache[key] = e
+      yield ({"name": p, "dict": "wsymm" if symm else "window", "size": size, "alpha": a, "n": n},
+             p, symm, size, a, n, cache[key])
+
+  for case, p, symm, size, a, n, out in list(fresh_samples()) + list(history_samples(tier, rng, d)):
     r = rows_by[p]
-    sd = audiolazy.wsymm if symm else audiolazy.window
-    key = (p, symm, size, json.dumps(a))
-    if key not in cache:
-      try:
-        cache[key] = sd[p](size) if a is None else sd[p](size, alpha_value(a))
-      except Exception as e:
-        cache[key] = e
-    out = cache[key]
-    case = {"name": p, "dict": "wsymm" if symm else "window", "size": size, "alpha": a, "n": n}
     if isinstance(out, Exception) or not isinstance(out, list) or len(out) != size or type(out[n]) is not float \
        or out[n] != out[n] or out[n] in (float("inf"), float("-inf")):
       chk.violations.append({"family": "encl", "case": case, "model_agrees": False,
@@ -616,6 +700,33 @@ def extra(chk, tier, rng):
       chk.stats["nontrivial_hashes"].add(hashlib.sha1(("encl" + json.dumps(case, sort_keys=True)).encode()).hexdigest())
   if goals:
     chk.stats["samples"].append({"family": "encl", "case": goals[len(goals) // 2][0], "observed": goals[len(goals) // 2][1][:300]})
+
+
+def history_samples(tier, rng, d):
+  """The parameter histories of the hist family, run again: one sample of EVERY call of the history against the
+  documented closed form for the alpha that call asked for (the failing input is the whole history)."""
+  import audiolazy
+  dicts = {"window": audiolazy.window, "wsymm": audiolazy.wsymm}
+  prim = {}
+  for r in d["rows"]:
+    for nm in r["names"]:
+      prim[nm] = r["names"][0]
+  for c in gen_hist_params(tier, rng):
+    if "params" not in c["tags"]:
+      continue
+    for k, st in enumerate(c["steps"]):
+      sd, name, size, a = st[1:5]
+      try:
+        fn = dicts[sd][name]
+        av = alpha_value(a)
+        out = fn(size) if a is None else (fn(size, alpha=av) if st[5] == "kw" else fn(size, av))
+      except Exception as e:
+        out = e
+      if name not in prim or size < 3:
+        continue
+      n = max(1, size // 3)
+      yield ({"history": c["steps"], "call": k, "name": prim[name], "dict": sd, "size": size, "alpha": a, "n": n},
+             prim[name], sd == "wsymm", size, a, n, out)
 
 
 def eval_sexpr(s, size):
